@@ -588,6 +588,15 @@ func fieldIndex(st *types.Struct, name string) int {
 func (e *SpecEnv) index(n *SIndex) Val {
 	c := e.c
 	v := e.eval(n.X, nil)
+	if m, ok := c.mapModelOf(v.T); ok && v.S != "" {
+		// m[k]: the stored value, or the zero value when k is absent
+		if e.st == nil {
+			sfail("map contents in a state-free context: %s", n)
+		}
+		kv := e.eval(n.I, m.keyT)
+		key := c.mapKey(m, kv)
+		return Val{T: m.elemT, S: fmt.Sprintf("(ite %s %s %s)", c.mapHas(e.st, m, v.S, key), c.mapVal(e.st, m, v.S, key), c.zero(m.elemT))}
+	}
 	iv := e.eval(n.I, types.Typ[types.Int])
 	idx := c.toIdx(iv.S, iv.T)
 	if v.P != nil && len(v.P.Steps) > 0 && v.P.Steps[len(v.P.Steps)-1].IsIdx && (isUnsafePtr(v.T) || isInt(v.T)) {
@@ -856,6 +865,12 @@ func (e *SpecEnv) call(n *SCall, hint types.Type) Val {
 			v = e.deref(v)
 		}
 		var t string
+		if m, ok := c.mapModelOf(v.T); ok && n.Fn == "len" {
+			if e.st == nil {
+				sfail("len(map) in a state-free context")
+			}
+			return Val{T: I, S: c.mapLen(e.st, m, v.S)}
+		}
 		if isGoSliceLike(v.T) {
 			if n.Fn == "len" {
 				return Val{T: I, S: fmt.Sprintf("(xlen %s)", v.S)}
@@ -1066,6 +1081,14 @@ func (e *SpecEnv) call(n *SCall, hint types.Type) Val {
 			r = fmt.Sprintf("(sbase %s)", v.S)
 		}
 		return Val{T: types.Typ[types.Bool], S: fmt.Sprintf("(and (> %s 0) (>= (born %s) %s))", r, r, c.now(e.pre))}
+	case "has": // has(m, k): key k is present in map m
+		mv := e.eval(n.Args[0], nil)
+		m, ok := c.mapModelOf(mv.T)
+		if !ok || e.st == nil {
+			sfail("has(m, k): m must be a map with integer or string keys")
+		}
+		kv := e.eval(n.Args[1], m.keyT)
+		return Val{T: types.Typ[types.Bool], S: c.mapHas(e.st, m, mv.S, c.mapKey(m, kv))}
 	case "argwords": // number of 8-byte words of a type / of the parameter frame of a func type
 		t := e.typeFromExpr(n.Args[0])
 		return e.numLit(big.NewInt(int64(len(c.ptrBits(t)))), hint)
@@ -1294,6 +1317,8 @@ func (e *SpecEnv) callPure(pf *PureFunc, args []SExpr, hint types.Type) Val {
 // lvalue evaluation for modifies clauses -----------------------------------
 
 type lval struct {
+	mapRef    string    // m[_]: the contents (keys, values, length) of map object m
+	mapM      *mapModel
 	heapAll   []string     // modifies heap(T): every object of type T (heap names)
 	globalsOf *ssa.Package // modifies globals(pkg): every package-level variable of pkg
 	path  *Path
@@ -1386,6 +1411,9 @@ func (e *SpecEnv) lvalue(x SExpr) lval {
 	case *SIndex:
 		if id, ok := n.I.(*SIdent); ok && id.Name == "_" {
 			v := e.eval(n.X, nil)
+			if m, ok := c.mapModelOf(v.T); ok {
+				return lval{mapRef: v.S, mapM: m}
+			}
 			if sl, ok := v.T.Underlying().(*types.Slice); ok {
 				return lval{whole: true, slice: v.S, elemT: sl.Elem(), path: &Path{Kind: rootArr, T: sl.Elem(), Ref: fmt.Sprintf("(sbase %s)", v.S)}}
 			}
